@@ -151,16 +151,22 @@ func categories(diffs []string) []string {
 	return out
 }
 
-// poolStateDiff compares NodePoolState counts of two clusters over the given pool names.
+// poolStateDiff compares NodePoolState (Active / Deleting sets per pool, claim -> pool map) of two clusters.
 func poolStateDiff(a, f *state.Cluster, pools []string) []string {
 	var out []string
+	as, am := a.NodePoolState.VerifC11Dump()
+	fs, fm := f.NodePoolState.VerifC11Dump()
 	for _, p := range pools {
-		a1, a2, a3 := a.NodePoolState.GetNodeCount(p)
-		f1, f2, f3 := f.NodePoolState.GetNodeCount(p)
-		// PendingDisruption is in-memory only and never set by the harness
-		if a1 != f1 || a2 != f2 || a3 != f3 {
-			out = append(out, fmt.Sprintf("nodepool-counts: pool %s cached=%d/%d/%d fresh=%d/%d/%d", p, a1, a2, a3, f1, f2, f3))
+		if !strsEq(as[p][0], fs[p][0]) || !strsEq(as[p][1], fs[p][1]) {
+			out = append(out, fmt.Sprintf("nodepool-counts: pool %s cached active=%v deleting=%v fresh active=%v deleting=%v", p, as[p][0], as[p][1], fs[p][0], fs[p][1]))
 		}
+		a1, a2, a3 := a.NodePoolState.GetNodeCount(p)
+		if a1 != len(as[p][0]) || a2 != len(as[p][1]) || a3 != 0 {
+			out = append(out, fmt.Sprintf("nodepool-counts: GetNodeCount(%s)=%d/%d/%d disagrees with the sets", p, a1, a2, a3))
+		}
+	}
+	if !reflect.DeepEqual(am, fm) {
+		out = append(out, fmt.Sprintf("nodepool-counts: claim map cached=%v fresh=%v", am, fm))
 	}
 	return out
 }
